@@ -13,6 +13,12 @@ CHECKS = {
         text="Real validate+apply of the eight generic loop transformations (no force) on every eligible target of a generated loop-nest family; original and transformed text are executed symbolically and one z3 query per pair decides equality of every observable for all inputs, bounds and trip counts <= K. Counterexamples are replayed through gfortran before being reported.",
         note="Bounds: trip<=K (3/4 single loops, 2/3 nests), exact integer/real arithmetic, programs = enumerated G-L family (inputs are solver-quantified, programs are enumerated). Trusted: fparser2, z3, fsym interpreter, gfortran for replay.",
         ref="5/C05"),
+    "C06": dict(
+        level="translation_validation", engine="fsym",
+        technique="SMT translation validation: z3 decides equivalence of the array statement under native Fortran array semantics vs the lowered loops (all inputs, extents 0..E symbolic)",
+        text="Real validate+apply of ArrayAssignment2Loops, Reference2ArrayRange, ArrayAccess2Loop, AllArrayAccess2Loop, Abs/Sign/Min/Max/DotProduct/Matmul 2Code and Sum/Product/Minval/Maxval 2Loop on every matching node of a generated array-notation family (overlapping/shifted/strided sections, differing declared lower bounds and dimension positions, masks, DIM, empty extents). The original statement is executed with native Fortran semantics (right-hand side and mask evaluated before any store) and the lowered code as loops; one z3 query per pair decides equality of every observable for all inputs and all extents <= E. Counterexamples are replayed through gfortran (bounds checking on).",
+        note="Bounds: extents and trip counts <= 3 (quick) / 4 (thorough), exact reals, HUGE as a symbolic bound; non-linear products are retried under an uninterpreted-function abstraction (sound for unsat). Programs = enumerated G-A family; inputs = solver. Trusted: fparser2, z3, fsym, gfortran for replay.",
+        ref="5/C06"),
     "C17": dict(
         level="other", engine="verdict-oracle",
         technique="SMT oracle on analysis verdicts: each positive verdict of the real SymbolicMaths/distance code is refuted or confirmed by z3 over all integer valuations",
